@@ -1373,7 +1373,7 @@ const char* rtosc_skip_next_printed_arg(const char* src, int* skipped,
                 rtosc_arg_val_t llhsarg, lhsarg, rhsarg;
                 char lhstype = deltaless_range_type ? deltaless_range_type
                                                     : *type,
-                     llhstype, rhstype[2] = "x";
+                     llhstype = 0, rhstype[2] = "x";
 
                 *type = '-'; // TODO: bug? return scanned type instead,
                              //       to avoid [0.1 1 ...5]
@@ -1457,10 +1457,13 @@ const char* rtosc_skip_next_printed_arg(const char* src, int* skipped,
                         llhssrc = strchr(llhssrc, 'x') + 1;
                     }
 
-                    rtosc_skip_next_printed_arg(llhssrc,
-                                                &llhsskipped, &llhstype,
-                                                NULL, 0, inside_bundle);
-                    if(types_match(llhstype, lhstype))
+                    // what stands there may be no value at all (the closing
+                    // bracket of an array that ends in "..."): no neighbour
+                    const char* llhsend =
+                        rtosc_skip_next_printed_arg(llhssrc,
+                                                    &llhsskipped, &llhstype,
+                                                    NULL, 0, inside_bundle);
+                    if(llhsend && types_match(llhstype, lhstype))
                     {
                         rtosc_scan_arg_val(llhssrc, &llhsarg, 1,
                                            NULL, &zero, 0, 0);
